@@ -40,7 +40,10 @@ static INIT: Once = Once::new();
 
 #[unsafe(no_mangle)]
 pub extern "C" fn redirectionio_log_init_stderr() {
-    stderrlog::new().init().unwrap();
+    // Only one logger can be installed per process: a second call must not abort the host
+    if let Err(err) = stderrlog::new().init() {
+        log::error!("cannot init stderr logger: {}", err);
+    }
 }
 
 #[unsafe(no_mangle)]
@@ -51,8 +54,8 @@ pub unsafe extern "C" fn redirectionio_log_init_with_callback(callback: redirect
     };
 
     INIT.call_once(|| {
-        log::set_boxed_logger(Box::new(logger))
-            .map(|()| log::set_max_level(log::LevelFilter::Trace))
-            .expect("cannot set logger");
+        if let Err(err) = log::set_boxed_logger(Box::new(logger)).map(|()| log::set_max_level(log::LevelFilter::Trace)) {
+            log::error!("cannot set logger: {}", err);
+        }
     });
 }
